@@ -70,7 +70,8 @@ let elt_p =
 
 let elt_s =
   { parse = hex_to_cps;
-    show = (fun s -> "x" ^ string_of_str (M.hex_str s));
+    (* String elements are handled as their UTF-8 byte sequences: Rust orders strings by bytes *)
+    show = (fun s -> "x" ^ String.concat "" (List.map (fun b -> Printf.sprintf "%02x" (int_of_n b)) s));
     cmp = M.str_cmp }
 
 let run_script (type a) (e : a elt) (script : string) : a list * string =
